@@ -756,6 +756,7 @@ def reuse_cases(acc):
     from harness import wamp_l1 as H
     from autobahn import wamp
     from autobahn.wamp import message as M
+    from autobahn.wamp.types import RegisterOptions
     fw = acc.fw
     for first in ("complete-while-disconnected", "fail-while-disconnected", "never-completed",
                   "completed-before-loss", "no-invocation"):
@@ -835,6 +836,13 @@ def reuse_cases(acc):
             def __len__(self):
                 return len(self.items)
 
+            # (methods are registered in alphabetical order: this one, with options of its own in
+            # the decorator, comes first - the others must not inherit them)
+            @wamp.register("com.svc.about", options=RegisterOptions(details_arg="details"))
+            def about(self, x, details=None):
+                self.seen.append(("about", x, details is not None))
+                return x
+
             @wamp.register("com.svc.get")
             def get(self, key, default="dflt"):
                 self.seen.append(("get", key, default))
@@ -854,6 +862,9 @@ def reuse_cases(acc):
             l1.deliver(M.Registered(rq, 800 + i))
         ids = {proc: 800 + i for i, (proc, rq) in enumerate(sorted(regs.items()))}
         n0 = len(l1.transport.sent)
+        e0 = l1.deliver(M.Invocation(2000, ids["com.svc.about"], args=[5]))
+        if e0 is not None:
+            raise RuntimeError("harness: %r" % (e0,))
         e1 = l1.deliver(M.Invocation(2001, ids["com.svc.get"], args=["k"]))
         e2 = l1.deliver(M.Invocation(2002, ids["com.svc.put"], args=[1, 2], kwargs={"x": 3}))
         l1.settle()
@@ -861,8 +872,8 @@ def reuse_cases(acc):
         acc.inc("nontrivial")
         acc.inc("service_object_%s" % ("falsy" if falsy else "truthy"))
         new = [(type(m).__name__, m.request, getattr(m, "args", None)) for m in l1.transport.sent[n0:]]
-        want_seen = [("get", "k", "dflt"), ("put", (1, 2), {"x": 3})]
-        want_new = [("Yield", 2001, ["dflt"]), ("Yield", 2002, [2])]
+        want_seen = [("about", 5, True), ("get", "k", "dflt"), ("put", (1, 2), {"x": 3})]
+        want_new = [("Yield", 2000, [5]), ("Yield", 2001, ["dflt"]), ("Yield", 2002, [2])]
         if e1 or e2 or svc.seen != want_seen or new != want_new:
             acc.bad("C10|endpoint-arguments|service-object|%s" % fw,
                     "register(obj) on a %s service object: methods saw %r (expected %r), sent %r (expected %r), "
